@@ -117,7 +117,7 @@ class C09(flow.Spec):
 
     def cases(self, ctx, seed, tier, round_no=0):
         rng = random.Random(seed * 1000003 + round_no * 7 + 9)
-        n = 2500 if tier == "quick" else 40000
+        n = 2500 if tier == "quick" else 150000
         cs = []
         cid = 0
         # every class x every k once, then random
